@@ -5,8 +5,8 @@ from lib import std_flow
 def run(ctx):
     ctx.assumptions += [
         "the real costs of Statement / Loop / FunctionInvocation are 1 (common/metering.go constants); the model is compared on exactly these three kinds",
-        "wall-clock cap per real run (30 s, child process) is the observable for 'terminates'",
-        "the VM's effective call-depth limit is the constant 2000 of runtime/vm_environment.go (see known finding)",
+        "cap per real run (30 s CPU time of the child process, 300 s wall clock) is the observable for 'terminates'",
+        "both engines use the configured call-depth limit (default 2000); boundary per engine profile",
     ]
     std_flow(ctx, "c30", coq_targets=["C30/Cases"],
              mismatch_key=lambda d: "model-mismatch:%s:%s" % (d.get("category"), d.get("engine")),
